@@ -18,6 +18,7 @@ SeqsUpTo(S, n) == IF n = 0 THEN {<<>>}
 
 AllModes == {"raise", "yield", "continue"}
 YieldOnly == {"yield"}
+TwoModes == {"raise", "yield"}
 NoLimit == {<<>>}
 Limits6 == {<<>>, <<0>>, <<1>>, <<2>>, <<3>>, <<4>>, <<5>>, <<6>>}
 HLimits == {<<>>, <<0>>, <<1>>}
